@@ -1,4 +1,194 @@
 import DepsDev.Drive.Semver
-open DepsDev
+import DepsDev.Proofs.C02Embed
 
-def main : IO Unit := Drive.runDriver "C02" Drive.Semver.handleOrBad
+/-!
+Driver for C02. Ops (fields after the property id):
+
+* `parse <Sys> <hex>`, `cmp <Sys> <hexA> <hexB>` — the model (`Drive.Semver.handle`);
+* `refcmp <eco> <astA> <astB>` — the reference spec `Ref.<E>.compare` on the decoded trees;
+* `embed <eco> <ast>` — `r=<hex of render a>`, what the model parser shows of that string,
+  what `embed a` shows, and whether `parse sys (render a) = ok (embed a)` holds structurally;
+* `classify <eco> <ast>` — validity, library range, and the finding classes of the tree.
+
+Tree encodings (no spaces): see `harness/cmd/c02/ast.go`.
+-/
+open DepsDev DepsDev.Semver DepsDev.Ref DepsDev.Proofs.C02 DepsDev.Drive.Semver
+
+namespace C02Drive
+
+def splitOnChar (c : Char) (s : String) : List String := s.splitOn (String.singleton c)
+
+def natOf (cs : List Char) : Option Nat :=
+  if cs.isEmpty || !cs.all Char.isDigit then none else (String.ofList cs).toNat?
+
+def natOfStr (s : String) : Option Nat := natOf s.toList
+
+/-- `-` = empty list; otherwise comma separated. -/
+def listOf {α} (f : String → Option α) (s : String) : Option (List α) :=
+  if s == "-" then some [] else (splitOnChar ',' s).mapM f
+
+def identOf (s : String) : Option SemVer.Ident :=
+  match s.toList with
+  | 'n' :: r => (natOf r).map .num
+  | 's' :: r => (Bytes.ofHex (String.ofList r)).map .alnum
+  | _ => none
+
+def hexNonEmpty (s : String) : Option Bytes := if s == "-" then none else Bytes.ofHex s
+
+def semverOf (s : String) : Option SemVer.Ast :=
+  match splitOnChar '/' s with
+  | [nums, pre, build] =>
+    match (splitOnChar '.' nums).mapM natOfStr with
+    | some [a, b, c] => do
+      let p ← listOf identOf pre
+      let bl ← listOf hexNonEmpty build
+      some { major := a, minor := b, patch := c, pre := p, build := bl }
+    | _ => none
+  | _ => none
+
+def nugetOf (s : String) : Option NuGet.Ast :=
+  match splitOnChar '/' s with
+  | [nums, pre, build] =>
+    match (splitOnChar '.' nums).mapM natOfStr with
+    | some [a, b, c, d] => do
+      let p ← listOf identOf pre
+      let bl ← listOf hexNonEmpty build
+      some { major := a, minor := b, patch := c, revision := d, pre := p, metadata := bl }
+    | _ => none
+  | _ => none
+
+def gemSegOf (s : String) : Option Gem.Seg :=
+  match s.toList with
+  | 'n' :: r => (natOf r).map .num
+  | 's' :: r => (Bytes.ofHex (String.ofList r)).map .str
+  | _ => none
+
+def gemOf (s : String) : Option Gem.Ast := (listOf gemSegOf s).map (fun l => { segs := l })
+
+def optNat (s : String) : Option (Option Nat) :=
+  if s == "-" then some none else (natOfStr s).map some
+
+def pepPreOf (s : String) : Option (Option (Pep440.PreKind × Nat)) :=
+  match s.toList with
+  | ['-'] => some none
+  | 'a' :: r => (natOf r).map (fun n => some (.a, n))
+  | 'b' :: r => (natOf r).map (fun n => some (.b, n))
+  | 'c' :: r => (natOf r).map (fun n => some (.rc, n))
+  | _ => none
+
+def pepLocalOf (s : String) : Option Pep440.LocalSeg :=
+  match s.toList with
+  | 'n' :: r => (natOf r).map .num
+  | 's' :: r => (Bytes.ofHex (String.ofList r)).map .str
+  | _ => none
+
+def pepOf (s : String) : Option Pep440.Ast :=
+  match splitOnChar '/' s with
+  | [e, rel, pre, post, dev, loc] => do
+    let e ← natOfStr e
+    let rel ← (splitOnChar '.' rel).mapM natOfStr
+    let pre ← pepPreOf pre
+    let post ← optNat post
+    let dev ← optNat dev
+    let loc ← listOf pepLocalOf loc
+    some { epoch := e, release := rel, pre := pre, post := post, dev := dev, loc := loc }
+  | _ => none
+
+def sepOf : Char → Option MavenCV.Sep
+  | 'd' => some .dot
+  | 'h' => some .dash
+  | 't' => some .trans
+  | _ => none
+
+def mavenOf (s : String) : Option MavenCV.Ast :=
+  match splitOnChar '/' s with
+  | [nums, q, qn, snap] => do
+    let nums ← (splitOnChar '.' nums).mapM natOfStr
+    let q ← (match q.toList with
+      | ['-'] => some none
+      | c :: r => do
+        let sp ← sepOf c
+        let w ← Bytes.ofHex (String.ofList r)
+        some (some (sp, w))
+      | [] => none)
+    let qn ← (match qn.toList with
+      | ['-'] => some none
+      | c :: r => do
+        let sp ← sepOf c
+        let n ← natOf r
+        some (some (sp, n))
+      | [] => none)
+    let snap ← (if snap == "1" then some true else if snap == "0" then some false else none)
+    some { nums := nums, qual := q, qnum := qn, snapshot := snap }
+  | _ => none
+
+def ordStr : Ordering → String
+  | .lt => "ok -1"
+  | .eq => "ok 0"
+  | .gt => "ok 1"
+
+/-- `embed` result. -/
+def embedLine (sys : System) (r : Bytes) (e : Version) : String :=
+  match parse sys r with
+  | .ok v => s!"ok r={Bytes.toHex r} {dumpVersion v} | {dumpVersion e} eq={b2s (v == e)}"
+  | .err => s!"err r={Bytes.toHex r}"
+  | .panic => "panic"
+
+def flags (xs : List (String × Bool)) : String :=
+  let on := (xs.filter (·.2)).map (·.1)
+  if on.isEmpty then "-" else ",".intercalate on
+
+def classLine (valid inLib : Bool) (cls : List (String × Bool)) : String :=
+  s!"ok v={b2s valid} lib={b2s inLib} c={flags cls}"
+
+def semverSys : String → Option System
+  | "npm" => some .npm
+  | "cargo" => some .cargo
+  | "go" => some .go
+  | _ => none
+
+def semverRender (sys : System) (a : SemVer.Ast) : Bytes :=
+  if sys == .go then GoMod.render a else SemVer.render a
+
+def handle : List String → Option String
+  | ["refcmp", eco, sa, sb] =>
+    match eco with
+    | "nuget" => do let a ← nugetOf sa; let b ← nugetOf sb; some (ordStr (NuGet.compare a b))
+    | "gem" => do let a ← gemOf sa; let b ← gemOf sb; some (ordStr (Gem.compare a b))
+    | "pypi" => do let a ← pepOf sa; let b ← pepOf sb; some (ordStr (Pep440.compare a b))
+    | "maven" => do let a ← mavenOf sa; let b ← mavenOf sb; some (ordStr (MavenCV.compare a b))
+    | _ => do
+      let _ ← semverSys eco
+      let a ← semverOf sa; let b ← semverOf sb
+      some (ordStr (SemVer.precedence a b))
+  | ["embed", eco, sa] =>
+    match eco with
+    | "nuget" => do let a ← nugetOf sa; some (embedLine .nuget (NuGet.render a) (embedNuGet a))
+    | "gem" => do let a ← gemOf sa; some (embedLine .rubygems (Gem.render a) (embedGem a))
+    | "pypi" => do let a ← pepOf sa; some (embedLine .pypi (Pep440.render a) (embedPep a))
+    | "maven" => do let a ← mavenOf sa; some (embedLine .maven (MavenCV.render a) (embedMaven a))
+    | _ => do
+      let sys ← semverSys eco
+      let a ← semverOf sa
+      some (embedLine sys (semverRender sys a) (embedSemVer sys a))
+  | ["classify", eco, sa] =>
+    match eco with
+    | "nuget" => do let a ← nugetOf sa; some (classLine a.valid true [])
+    | "gem" => do let a ← gemOf sa; some (classLine a.valid (Gem.inLib a) [("upper", !a.lower)])
+    | "pypi" => do
+      let a ← pepOf sa
+      some (classLine a.valid (Pep.inLib a)
+        [("post0", Pep.prePost0 a), ("localpostdev", Pep.localPostDev a), ("localpre", Pep.localPre a),
+         ("localupper", Pep.localUpper a)])
+    | "maven" => do
+      let a ← mavenOf sa
+      some (classLine a.valid (Maven.inLib a) [("finalsnapshot", Maven.finalSnapshot a)])
+    | _ => do
+      let _ ← semverSys eco
+      let a ← semverOf sa
+      some (classLine a.valid (SemVer.inLib a) [("bigpre", SemVer.bigPre a), ("negident", SemVer.negIdent a)])
+  | args => Drive.Semver.handle args
+
+end C02Drive
+
+def main : IO Unit := Drive.runDriver "C02" (fun args => (C02Drive.handle args).getD "bad-op")
